@@ -423,7 +423,22 @@ func checkC09(r *Run) {
 				}
 			}
 			if fe := nonNilEdges(ka, ping); len(fe) == 1 && ctxTo != nil {
-				c.ruleKeepAliveClassify(r6, ka, ka.Params[0], ctxTo, wt, ping, fe[0])
+				// for the reconnect lifecycle only this matters: whatever the classification, a failed ping makes KeepAlive
+				// return a non-nil error (which error is C13's and C19's concern)
+				okNN := true
+				for _, ret := range returnsOf(ka) {
+					if !DominatedByEdge(ka, ret, fe[0].B, fe[0].K, PathQ{}) {
+						continue
+					}
+					ev := c.errResult(ret)
+					if !c.nonNilAt(ka, ev, ret) {
+						okNN = false
+						r6.Bad("KeepAlive/failure-non-nil", ret.Pos(), "after a failed ping KeepAlive can return %s, which is not known to be non-nil: the keep-alive goroutine would not close the connection and the loop would not redial", describeVal(c.Resolve(ev)))
+					}
+				}
+				if okNN {
+					r6.OK("KeepAlive/failure-non-nil", ping.Pos(), "every return on the failed-ping edge carries a non-nil error")
+				}
 			}
 		}
 	}
